@@ -20,7 +20,7 @@ RULE = ('value trees (depth <=4, thorough <=5) built from JSON recipes over ints
         'numpy-string keys, unsupported objects); a third of the trees also travel through a real '
         'RAMEmitter; non-trivial = tree with >=3 nodes containing a quantity/unit/numpy/set/tuple '
         'value or a rejection case; distinct = distinct recipe')
-PLAN = {'quick': {'n': 16000, 'min_cases': 2000}, 'thorough': {'n': 600000, 'min_cases': 50000}}
+PLAN = {'quick': {'n': 40000, 'min_cases': 2000}, 'thorough': {'n': 600000, 'min_cases': 50000}}
 REQUIRED_ORACLES = ['roundtrip', 'plain_json', 'idempotent', 'rejects', 'contract.serialize.plain_json',
                     'emitter_roundtrip']
 ANCHORS = ['vivarium.core.serialize:serialize_value', 'vivarium.core.serialize:deserialize_value',
